@@ -120,7 +120,7 @@ func (e timeoutErr) Temporary() bool { return true }
 type brokenBody struct{}
 
 func (brokenBody) Read([]byte) (int, error) { return 0, errors.New("unexpected EOF (injected)") }
-func (brokenBody) Close() error               { return nil }
+func (brokenBody) Close() error             { return nil }
 
 // execState is the per-execution record of the fake transport. vrt runs one
 // execution at a time per process, so a single current pointer is enough.
@@ -382,9 +382,18 @@ func harness(c call, n int) *vrt.Harness {
 
 // relistHarness: the client object lives across two requests; between them the
 // host list changes from n hosts to n2 new hosts plus `keep` of the old ones.
-func relistHarness(name string, fam string, kind string, answers []answer, mk func(l *fakeList) func() error, n, n2, keep int) *vrt.Harness {
+//
+// answers2 == nil: both requests are answered from `answers`; otherwise the
+// second request is answered from answers2 (thorough tier: the full alphabet;
+// the harness name carries the suffix " full2").
+func relistHarness(name string, fam string, kind string, answers, answers2 []answer, mk func(l *fakeList) func() error, n, n2, keep int) *vrt.Harness {
 	c := call{name: name, kind: kind, family: fam, answers: answers}
-	return &vrt.Harness{Name: fmt.Sprintf("%s/relist n=%d->%d+%d", name, n, n2, keep), Horizon: 100000, Body: func() (string, string) {
+	hname := fmt.Sprintf("%s/relist n=%d->%d+%d", name, n, n2, keep)
+	if answers2 != nil {
+		hname += " full2"
+	}
+	return &vrt.Harness{Name: hname, Horizon: 100000, Body: func() (string, string) {
+		c := c
 		l := &fakeList{}
 		do := mk(l)
 		c.run = func(*fakeList) error { return do() }
@@ -394,6 +403,9 @@ func relistHarness(name string, fam string, kind string, answers []answer, mk fu
 			return "", v
 		}
 		hostsB := append(hostNames("b", n2), hostsA[:keep]...)
+		if answers2 != nil {
+			c.answers = answers2
+		}
 		r2 := oneRequest(c, l, hostsB)
 		obs := fmt.Sprintf("r1 contacts=%d distinct=%d %v | r2 contacts=%d distinct=%d %v", r1.contacts, r1.distinct, r1.given, r2.contacts, r2.distinct, r2.given)
 		if v := judge(c, len(hostsB), r2); v != "" {
@@ -410,21 +422,31 @@ func relistHarnesses(thorough bool) []*vrt.Harness {
 	if thorough {
 		shapes = append(shapes, [3]int{1, 3, 0}, [3]int{4, 2, 1}, [3]int{2, 4, 2})
 	}
+	mkGet := func(l *fakeList) func() error {
+		c := tagclient.NewClusterClient(l, nil)
+		return func() error { _, err := c.Get("repo:tag"); return err }
+	}
+	mkReady := func(l *fakeList) func() error {
+		c := tagclient.NewClusterClient(l, nil)
+		return func() error { return c.CheckReadiness() }
+	}
+	mkLoc := func(l *fakeList) func() error {
+		p := blobclient.NewProvider()
+		return func() error { _, err := blobclient.Locations(p, l, testDigest); return err }
+	}
 	for _, sh := range shapes {
 		hs = append(hs,
-			relistHarness("tagclient.Get", "tagclient clusterClient.do", "multi", std, func(l *fakeList) func() error {
-				c := tagclient.NewClusterClient(l, nil)
-				return func() error { _, err := c.Get("repo:tag"); return err }
-			}, sh[0], sh[1], sh[2]),
-			relistHarness("tagclient.CheckReadiness", "tagclient clusterClient.doOnce", "single", std, func(l *fakeList) func() error {
-				c := tagclient.NewClusterClient(l, nil)
-				return func() error { return c.CheckReadiness() }
-			}, sh[0], sh[1], sh[2]),
-			relistHarness("blobclient.Locations", "blobclient.Locations", "multi", locRelistAlphabet(), func(l *fakeList) func() error {
-				p := blobclient.NewProvider()
-				return func() error { _, err := blobclient.Locations(p, l, testDigest); return err }
-			}, sh[0], sh[1], sh[2]),
+			relistHarness("tagclient.Get", "tagclient clusterClient.do", "multi", std, nil, mkGet, sh[0], sh[1], sh[2]),
+			relistHarness("tagclient.CheckReadiness", "tagclient clusterClient.doOnce", "single", std, nil, mkReady, sh[0], sh[1], sh[2]),
+			relistHarness("blobclient.Locations", "blobclient.Locations", "multi", locRelistAlphabet(), nil, mkLoc, sh[0], sh[1], sh[2]),
 		)
+		if thorough {
+			hs = append(hs,
+				relistHarness("tagclient.Get", "tagclient clusterClient.do", "multi", std, tagAlphabet(), mkGet, sh[0], sh[1], sh[2]),
+				relistHarness("tagclient.CheckReadiness", "tagclient clusterClient.doOnce", "single", std, tagAlphabet(), mkReady, sh[0], sh[1], sh[2]),
+				relistHarness("blobclient.Locations", "blobclient.Locations", "multi", locRelistAlphabet(), locAlphabet(), mkLoc, sh[0], sh[1], sh[2]),
+			)
+		}
 	}
 	return hs
 }
@@ -540,7 +562,7 @@ func main() {
 		"E1-sequential: for every cluster-client call (13 tagclient cluster methods through the real singleClient/httputil.Send; blobclient.Locations and blobclient.ClientResolver.Resolve through the real HTTPProvider/HTTPClient) x every host-list size (including sizes above three), " +
 		"every sequence of per-contact answers as environment choices (full tree, no deviation cap in effect) over one member of every answer class httputil/the clients tell apart: " +
 		"{200, connection refused, client timeout (net.Error Timeout), 201, 202, 403, 404, 409, 429, 500, 502, 503, 504; tagclient also 200 with an unparsable body and 200 whose body breaks off; list calls also next-page; Locations/Resolve also 200-without-locations}; " +
-		"plus relist scenarios (list replaced between two requests of one long-lived client; both requests answered from {200, connection refused, timeout, 404, 500, 429, 503} resp. {200, connection refused, 404, 503, 200-without-locations}). " +
+		"plus relist scenarios (list replaced between two requests of one long-lived client; both requests answered from {200, connection refused, timeout, 404, 500, 429, 503} resp. {200, connection refused, 404, 503, 200-without-locations}; thorough: additionally with the second request answered from the full alphabet). " +
 		"Oracle per request: at most three distinct hosts contacted (exactly one for CheckReadiness), all from the list current at that request. distinct = outcome classes (contacts, distinct hosts, answer sequence) per harness."
 	run.Assume("http.DefaultTransport is replaced by a recording fake: a connection-level failure is modelled as a RoundTrip error (what httputil wraps as NetworkError), a slow host as a RoundTrip error with Timeout()==true returned at once (no real waiting), an HTTP answer as a response with that status")
 	run.Assume("which hosts are drawn is decided by Go's randomised map iteration; the oracle (count of distinct hosts, membership) must hold for every draw and answers are indexed by contact number, so one execution per answer sequence decides the clause for every draw")
@@ -588,7 +610,11 @@ func main() {
 				run.Violation(fp(v), v)
 			}
 		} else {
-			res = rep.VRT(run, h, 64, 1, maxDur, fp)
+			w := 1
+			if strings.HasSuffix(h.Name, " full2") && strings.HasPrefix(h.Name, "blobclient.") {
+				w = evid.Workers() // ~2*10^5 executions each: shard over worker processes
+			}
+			res = rep.VRT(run, h, 64, w, maxDur, fp)
 		}
 		big := false // single-request harness on a list of more than three hosts
 		if i := strings.Index(h.Name, "/n="); i >= 0 {
